@@ -39,6 +39,11 @@ const ED25519_SPKI_OID: &[u8] = &[0x2b, 0x65, 0x70];
 /// 1.2.840.10045.2.1 ecPublicKey (Elliptic Curve public key cryptography)
 const ECC_SPKI_OID: &[u8] = &[0x2a, 0x86, 0x48, 0xce, 0x3d, 0x02, 0x01];
 
+/// OID of the named curve P-256 (prime256v1, 1.2.840.10045.3.1.7), the only
+/// curve supported for ECDSA keys.
+const ECC_P256_CURVE_OID: &[u8] =
+    &[0x2a, 0x86, 0x48, 0xce, 0x3d, 0x03, 0x01, 0x07];
+
 /// The length of an ed25519 private key in bytes
 const ED25519_PRIVATE_KEY_LENGTH: usize = 32;
 
@@ -781,8 +786,11 @@ impl PublicKey {
                     if typ == KeyType::Ecdsa {
                         let _alg_oid =
                             derp::expect_tag_and_get_value(input, Tag::Oid)?;
+                    } else if typ == KeyType::Ed25519 && input.at_end() {
+                        // RFC 8410: the parameters of id-Ed25519 are absent
                     } else {
-                        // for RSA / ed25519 this is null, so don't both parsing it
+                        // for RSA this is null (RFC 3279); a null is also
+                        // tolerated for ed25519 keys written by older versions
                         derp::read_null(input)?;
                     }
                     Ok(typ)
@@ -1166,7 +1174,16 @@ fn write_spki(
             der.sequence(|der| match key_type.as_oid().ok() {
                 Some(tag) => {
                     der.element(Tag::Oid, tag)?;
-                    der.null()
+                    match key_type {
+                        // RFC 5480: the parameters name the curve
+                        KeyType::Ecdsa => {
+                            der.element(Tag::Oid, ECC_P256_CURVE_OID)
+                        }
+                        // RFC 8410: the parameters must be absent
+                        KeyType::Ed25519 => Ok(()),
+                        // RFC 3279: NULL parameters
+                        _ => der.null(),
+                    }
                 }
                 None => Err(derp::Error::WrongValue),
             })?;
